@@ -771,12 +771,6 @@ def run_case(case) -> Outcome:
 
 def known_finding(case, viol):
     w = viol.get("what", "")
-    # segment_segment_set compares thresholds that scale like L^2 with quantities that scale
-    # like L^4: at lengths ~1e-4 (the 1/8 sub-lattice scaled by 2^-10) every pair is "parallel".
-    # Matched only for entries that really came from that tiny-scale variant call.
-    if (w.startswith("segment_segment_set:") and isinstance(case, dict) and case.get("part") == "ss"
-            and case.get("den") == 8 and str(viol.get("from_variant", "")).startswith("s2^-10")):
-        return "C30-segment_segment_set-tolerance-not-scale-invariant"
     if w.startswith("segment_set raised"):
         return "C30-segment_set-always-raises"
     return None
